@@ -245,3 +245,77 @@ def lineage(order, parent, n):
         k = parent[k - 1]
     chain.reverse()
     return chain
+
+
+# --------------------------------------------------------------------------------------
+# C19: both storing procedures from every reachable state
+# --------------------------------------------------------------------------------------
+def _pairs_worker(args):
+    (inst_kw, paths, idxs, base) = args
+    fhs, _ = load_hashstore()
+    inst = Inst(**inst_kw)
+    inputs = write_inputs(inst, os.path.join(base, "inputs.%d" % os.getpid()))
+
+    def C(op, pid="-", c="-", val="-"):
+        return {"op": op, "pid": pid, "c": c, "val": val, "fmt": "-", "ver": "-"}
+    out = []
+    for sidx in idxs:
+        root = os.path.join(base, "q%d" % sidx)
+        snap = root + ".snap"
+        shutil.rmtree(root, ignore_errors=True)
+        shutil.rmtree(snap, ignore_errors=True)
+        os.makedirs(root)
+        d = Driver(inst, root, inputs, fhs)
+        for call in paths[sidx]:
+            d.call(call)
+        pre = d.abstract()
+        shutil.copytree(root, snap)
+        for p in sorted(inst.pid):
+            for c in sorted(inst.content):
+                for val in ("none", "good", "badsum", "badsize"):
+                    r1 = d.call(C("store", p, c, val))
+                    one = {"res": r1, "st": d.abstract()}
+                    _restore(snap, root)
+                    s1 = d.call(C("storenp", c=c))
+                    r = s1
+                    if r["cls"] == "ok" and val != "none":
+                        r = d.call(C("dii", c=c, val=val))
+                    if r["cls"] == "ok":
+                        r = d.call(C("tag", p, c))
+                    two = {"res": r, "st": d.abstract(), "stored": s1}
+                    _restore(snap, root)
+                    out.append({"pre": pre, "pid": p, "c": c, "val": val, "one": one, "two": two,
+                                "state": sidx})
+        shutil.rmtree(root, ignore_errors=True)
+        shutil.rmtree(snap, ignore_errors=True)
+    return out
+
+
+def walk_pairs(inst_kw, paths, procs=16):
+    base = os.path.join(tlc.scratch_root(), "pairs")
+    shutil.rmtree(base, ignore_errors=True)
+    os.makedirs(base)
+    idxs = list(range(len(paths)))
+    chunks = [c for c in (idxs[k::procs * 2] for k in range(procs * 2)) if c]
+    with multiprocessing.get_context("fork").Pool(procs) as pool:
+        res = pool.map(_pairs_worker, [(inst_kw, paths, c, base) for c in chunks])
+    shutil.rmtree(base, ignore_errors=True)
+    return [r for chunk in res for r in chunk]
+
+
+def judge_flat(module, template, obj, consts, n):
+    work = os.path.join(tlc.scratch_root(), "flat.%d" % os.getpid())
+    os.makedirs(work, exist_ok=True)
+    tf = os.path.join(work, "obs.json")
+    with open(tf, "w") as f:
+        json.dump(obj, f)
+    cfg = tlc.fill_template(template, consts)
+    r = tlc.run_tlc(module, cfg_text=cfg, workers=16, env={"TRACE_FILE": tf})
+    shutil.rmtree(work, ignore_errors=True)
+    judged = r.printed("JUDGED")
+    if not r.ok or not judged or judged[0].split()[0] != str(n):
+        raise RuntimeError("%s did not judge everything (%s of %d)\n%s"
+                           % (module, judged, n, r.out[-3000:]))
+    viol = [(l.split()[0], int(l.split()[1])) for l in r.printed("VIOL")]
+    drift = [int(l.split()[1]) for l in r.printed("DRIFT")]
+    return viol, drift, r
